@@ -417,7 +417,7 @@ pub fn run_c06(rep: &Report) -> i32 {
         .set("exhaustive", J::Bool(true))
         .set("bounds", J::s(format!("total haystack length <= {}; offsets 0..={}; vector width considered {}", 2 * V + 8, imax(4, t), V)))
         .set("design_ref", J::s("4, 7 (C06)"));
-    if ev == 0 {
+    if ev == 0 && rep.nviol() == 0 {
         rep.machinery("vacuous run".into());
     }
     if rep.set_len("variants_exercised") < 13 {
@@ -568,6 +568,15 @@ pub struct Obs {
     earliest_some: Result<bool, String>,
     is_match: Result<bool, String>,
     overlapping: Result<Vec<M>, String>,
+}
+
+impl Obs {
+    pub fn find_result(&self) -> Result<Option<M>, String> {
+        self.find.clone()
+    }
+    pub fn iter_result(&self) -> Vec<M> {
+        self.iter.clone().unwrap_or_default()
+    }
 }
 
 pub fn observe(ac: &AhoCorasick, kind: Kind, h: &[u8], s: usize, e: usize, anchored: bool) -> Obs {
@@ -754,7 +763,7 @@ pub fn run_c05(rep: &Report) -> i32 {
         .set("exhaustive", J::Bool(true))
         .set("bounds", J::s(format!("total haystack length <= {}; offsets 0..={}", 2 * V + 8, imax(4, t))))
         .set("design_ref", J::s("4, 7 (C05)"));
-    if ev == 0 {
+    if ev == 0 && rep.nviol() == 0 {
         rep.machinery("vacuous run".into());
     }
     let sel = rep.set_members("prefilter_variants_selected");
@@ -922,6 +931,8 @@ pub fn run_c10(rep: &Report) -> i32 {
             }
         }
     });
+    rep.sample(J::obj().set("patterns", J::s("[\"ab\",\"b\"]")).set("haystack", J::s("abab")).set("spans", J::s("every 0<=s<=e<=4 and s=e+1; e.g. [1..3]: result must equal the result on \"ba\" shifted by 1, also after the outside bytes are replaced: \"babb\" / \"bbaa\"")).set("apis", J::s("try_find, find_iter, is_match, earliest, overlapping; unanchored and anchored; prefilter on/off; nNFA, cNFA, DFA")));
+    rep.sample(J::obj().set("packed_family", J::s("m4-tail-12")).set("haystack", J::s("filler^i . core . filler^j")).set("spans", J::s("(0,n) (i,n) (0,i+|core|) (i,i+|core|) (i+1,n) (0,i+|core|-1)")));
     let ev = rep.get("comparisons");
     let cov = J::obj()
         .set("evaluations", J::i(ev.max(1)))
@@ -930,7 +941,7 @@ pub fn run_c10(rep: &Report) -> i32 {
         .set("exhaustive", J::Bool(true))
         .set("bounds", J::s("automata: haystack length <= 6 (budgeted by alphabet size), all spans; vector paths: total length <= 72, 6 span forms per template"))
         .set("design_ref", J::s("4, 7 (C10)"));
-    if ev == 0 {
+    if ev == 0 && rep.nviol() == 0 {
         rep.machinery("vacuous run".into());
     }
     rep.finish(
